@@ -8,6 +8,9 @@ def check(run, only=None):
     if only in (None, "P"):
         from vlib.companions import parserfuncs as pf
         pcommon.add_proof(run, "C08", ["parglare.parser.Token.__init__", "parglare.parser.Token.__len__",
-                                       "parglare.parser.Token.end_position", "parglare.grammar.StringRecognizer.__call__"],
-                          [pf.run_misc],
-                          "Token length/end_position arithmetic; case-sensitive StringRecognizer returns exactly the text at pos")
+                                       "parglare.parser.Token.end_position", "parglare.grammar.StringRecognizer.__call__",
+                                       "parglare.parser.Parser._skipws"],
+                          [pf.run_misc, pf.run_layout],
+                          "Token length/end_position arithmetic; StringRecognizer returns exactly the text standing at pos "
+                          "(both case modes); _skipws never moves backwards, records exactly input[old:new] as layout, with the "
+                          "ws parameter skips only ws characters and skips maximally, without layout moves nothing")
